@@ -4,6 +4,7 @@
   canonical snapshot the harness prints for the real contracts.
 -/
 import MantraDex.Model.System
+import MantraDex.Model.Queries
 import MantraDex.Driver.PoolStream
 
 namespace MantraDex.Driver
@@ -244,6 +245,82 @@ def snapshot (w : World) (lps0 : List String) : String × List String :=
    s!"fmcfg[{fcfg.feeCollector} {fcfg.epochManager} {fcfg.poolManager} {fcfg.createFarmFee.amount}{fcfg.createFarmFee.denom} {fcfg.maxConcurrentFarms} {fcfg.maxFarmEpochBuffer} {fcfg.minUnlocking} {fcfg.maxUnlocking} {fcfg.farmExpirationTime} {fcfg.emergencyUnlockPenalty}] " ++
    s!"farms[{farmsS}] pos[{posS}] users[{usersS}] rewards[{rewardsS}] time[{w.nowNs}]", lps)
 
+def showCoinList (cs : List Coin) : String :=
+  if cs.isEmpty then "-" else ",".intercalate ((sortCoins cs).map fun c => s!"{c.denom}:{c.amount}")
+
+def showRouteSim (r : R RouteSim) : String :=
+  showR (r.map fun x => s!"{x.amount} {showCoinList x.slippage} {showCoinList x.swapFees} {showCoinList x.protocolFees} {showCoinList x.burnFees} {showCoinList x.extraFees}")
+
+def pOps : P (List SwapOp) := fun ts => do
+  let (n, ts) ← pNat ts
+  pRepeat pSwapOp n ts
+
+/-- `q <kind> <args…>`: read-only queries (formats: harness/src/streams/hist.rs `query`) -/
+def queryOp (w : World) (args : List String) : Option String := do
+  let (kind, ts) ← pTok args
+  match kind with
+  | "sim" => do
+    let (pool, ts) ← pTok ts
+    let (od, ts) ← pTok ts
+    let (amt, ts) ← pNat ts
+    let (ad, _) ← pTok ts
+    some (showR ((querySimulation w.pm ⟨od, amt⟩ ad pool).map fun c =>
+      joinNats [c.ret, c.slippage, c.swapFee, c.protocolFee, c.burnFee, c.extraFees]))
+  | "rev" => do
+    let (pool, ts) ← pTok ts
+    let (ad, ts) ← pTok ts
+    let (amt, ts) ← pNat ts
+    let (od, _) ← pTok ts
+    some (showR ((queryReverseSimulation w.pm ⟨ad, amt⟩ od pool).map fun c =>
+      joinNats [c.offer, c.slippage, c.swapFee, c.protocolFee, c.burnFee, c.extraFees]))
+  | "simops" => do
+    let (amt, ts) ← pNat ts
+    let (ops, _) ← pOps ts
+    some (showRouteSim (simulateSwapOpsFull w.pm amt ops))
+  | "revops" => do
+    let (amt, ts) ← pNat ts
+    let (ops, _) ← pOps ts
+    some (showRouteSim (reverseSimulateSwapOps w.pm amt ops))
+  | "decimals" => do
+    let (pool, ts) ← pTok ts
+    let (d, _) ← pTok ts
+    some (showR ((queryAssetDecimals w.pm pool d).map toString))
+  | "pools" => do
+    let (id, ts) ← pOptTok ts
+    let (sa, ts) ← pOptTok ts
+    let (lim, _) ← pOptNat ts
+    some (showR ((queryPools w.pm id sa lim).map fun ps =>
+      if ps.isEmpty then "-" else ",".intercalate (ps.map fun p => s!"{p.id}:{w.bank.supply p.lpDenom}")))
+  | "farms" => do
+    let (k, ts) ← pTok ts
+    let (v, ts) ← pTok ts
+    let (sa, ts) ← pOptTok ts
+    let (lim, _) ← pOptNat ts
+    let by_ : Option FarmsBy := match k with
+      | "id" => some (.identifier v) | "lp" => some (.lpDenom v) | "asset" => some (.farmAsset v) | _ => none
+    some (showR ((queryFarms w.fm by_ sa lim).map fun fs =>
+      if fs.isEmpty then "-" else ",".intercalate (fs.map (·.id))))
+  | "positions" => do
+    let (k, ts) ← pTok ts
+    let (v, ts) ← pTok ts
+    let (o, ts) ← pOptBool ts
+    let (sa, ts) ← pOptTok ts
+    let (lim, _) ← pOptNat ts
+    let by_ : Option PositionsBy := match k with
+      | "id" => some (.identifier v) | "recv" => some (.receiver v) | _ => none
+    some (showR ((queryPositions w.fm by_ o sa lim).map fun ps =>
+      if ps.isEmpty then "-" else ",".intercalate (ps.map (·.id))))
+  | "lpweight" => do
+    let (a, ts) ← pTok ts
+    let (d, ts) ← pTok ts
+    let (e, _) ← pNat ts
+    some (showR ((queryLpWeight w.fm w.fmEnv a d e).map toString))
+  | "rewards" => do
+    let (a, ts) ← pTok ts
+    let (u, _) ← pOptNat ts
+    some (showR ((queryRewards w.fm w.fmEnv a u).map showCoinList))
+  | _ => none
+
 /-- one line of a history stream -/
 def histOp (st : HistState) (op : String) (args : List String) : Option (HistState × String) :=
   match op with
@@ -277,6 +354,10 @@ def histOp (st : HistState) (op : String) (args : List String) : Option (HistSta
     let w ← st.w
     let (s, lps) := snapshot w st.lps
     some ({ st with lps := lps }, s)
+  | "q" => do
+    let w ← st.w
+    let r ← queryOp w args
+    some (st, r)
   | _ => none
 
 end MantraDex.Driver
